@@ -575,8 +575,65 @@ def _rect_list(v):
     return [r] if not isinstance(r[0], list) else r
 
 
-def inject(rng, doc: dict, mode: str, cls: str):
-    """returns the document with one defect of class `cls`, or None when the base document offers no place for it."""
+def area_eps_in_force(doc, eps):
+    """the area tolerance `Rectangle.area_epsilon()` in force while `doc` is loaded: the explicit one, or the one the
+    netlist proposes (sqrt(1e-12 · smallest dimension)) when none is defined; None when `doc` does not load."""
+    if eps is not None:
+        return float(eps[1])
+    Rectangle.undefine_epsilon()
+    try:
+        Netlist(copy.deepcopy(doc))
+        return float(Rectangle.area_epsilon())
+    except Exception:
+        return None
+    finally:
+        Rectangle.undefine_epsilon()
+
+
+def sliver_overlap(rng, d, m, mode: str, eps):
+    """two LARGE squares (side 10^3 … 10^6) of module `m` that overlap in a thin sliver: an area tiny relative to the
+    rectangles (1e-9 … 1e-4 of them) but at least 4× the area tolerance in force (checked exactly, with Fractions, on
+    the numbers actually written to the document).  Returns the document or None."""
+    mods = d["Modules"]
+    side = float(rng.choice([1024, 65536, 1048576])) if mode == "Q" else float(rng.choice([1e3, 1e4, 1e5, 1e6, 2.5e3, 3e5]))
+    x0, y0 = rng.randint(0, 3) * side, rng.randint(0, 3) * side
+    a = [x0 + side / 2, y0 + side / 2, side, side]
+
+    def with_delta(delta):
+        b = [x0 + side - delta + side / 2, y0 + side / 2, side, side]
+        rl = [list(a), b]
+        if rng.random() < 0.5:
+            rl.reverse()
+        return b, rl
+    _, rl0 = with_delta(0.0)
+    mods[m]["rectangles"] = rl0
+    mods[m].pop("flip", None)
+    tol = area_eps_in_force(d, eps)          # does not depend on the sliver (the dimensions stay the same)
+    if tol is None:
+        return None
+    factor = rng.choice([4, 16, 256, 4096])
+    if mode == "Q":
+        delta = 2.0 ** rng.choice([-8, -4, -1, 0, 2])
+        while delta * side < factor * tol:
+            delta *= 2
+    else:
+        delta = max(factor * max(tol, 1e-300) / side, side * 2.0 ** -30) * rng.choice([1.0, 1.5, 3.0])
+    if delta > side * 1e-4:
+        return None
+    b, rl = with_delta(delta)
+    # exact overlap of the rectangles as written
+    fa, fb = [Fraction(v) for v in a], [Fraction(v) for v in b]
+    dx = (fa[0] + fa[2] / 2) - (fb[0] - fb[2] / 2)
+    ov = dx * Fraction(side)
+    if not (dx > 0 and ov >= 4 * Fraction(tol) and ov > 0):
+        return None
+    mods[m]["rectangles"] = rl
+    return d
+
+
+def inject(rng, doc: dict, mode: str, cls: str, eps="unknown"):
+    """returns the document with one defect of class `cls`, or None when the base document offers no place for it.
+    `eps` = the tolerance state the document will be loaded under (needed for defects defined relative to it)."""
     d = copy.deepcopy(doc)
     mods = d.setdefault("Modules", {})
     nets = d.setdefault("Nets", [])
@@ -655,7 +712,9 @@ def inject(rng, doc: dict, mode: str, cls: str):
         if m is None:
             return None
         rl = copy.deepcopy(_rect_list(mods[m]))
-        how = rng.choice(["shifted-copy", "branch-overlap", "dup-branch", "dup-any"])
+        how = rng.choice(["shifted-copy", "branch-overlap", "dup-branch", "dup-any"] + (["sliver-large"] * 3 if eps != "unknown" else []))
+        if how == "sliver-large":
+            return sliver_overlap(rng, d, m, mode, eps)
         if how == "shifted-copy":
             r = rng.choice(rl)
             x, y, w, h = (float(v) for v in r[:4])
